@@ -19,6 +19,7 @@ import (
 //	L<slot>  hash of the leaf inserted into that slot (live or dead)
 //	N<pos>   true hash of the node at that position (external layout); zero hash if none
 //	R<i>     root i of the state
+//	M<slot>  hash of that leaf with its last byte flipped (shares the first 12 bytes, is not a node)
 //	F<i>     fresh value number i (never a node)
 //	Z        the all-zero hash
 //	X<hex>   literal 32 bytes
@@ -50,6 +51,17 @@ func resolveRef(ref string, f *model.Forest, v *model.View) (Hash, error) {
 			return f.Hashes[i], nil
 		}
 		return model.LeafHash(i), nil
+	case 'M': // the leaf's hash with its last byte flipped: same first 12 bytes (the pointer forest's map key), not a node
+		i, err := strconv.Atoi(arg)
+		if err != nil || i < 0 {
+			return Hash{}, fmt.Errorf("bad ref %q", ref)
+		}
+		h := model.LeafHash(i)
+		if f != nil && i < len(f.Hashes) {
+			h = f.Hashes[i]
+		}
+		h[31] ^= 0x5a
+		return h, nil
 	case 'N':
 		p, err := strconv.ParseUint(arg, 10, 64)
 		if err != nil {
@@ -253,7 +265,12 @@ func mutate(t *rapid.T, tp Tuple, f *model.Forest, v *model.View, inRangeOnly, a
 	pick := func(n int, label string) int { return rapid.IntRange(0, n-1).Draw(t, label) }
 	relatedRef := func(pos uint64, label string) string {
 		// hash of the node itself / its sibling / its parent / something else
-		switch rapid.IntRange(0, 4).Draw(t, label) {
+		switch rapid.IntRange(0, 5).Draw(t, label) {
+		case 5:
+			if n := v.NodeAt[pos]; n != nil && n.IsLeaf() {
+				return fmt.Sprintf("M%d", n.Slot)
+			}
+			return fmt.Sprintf("N%d", pos)
 		case 0:
 			return fmt.Sprintf("N%d", pos)
 		case 1:
